@@ -530,6 +530,34 @@ func genC03(e *emitter) {
 	fmt.Fprintf(&b, "\n/-- assignments to `Duration` in the two role parameter parsers, in source order -/\ndef roleHandlerDur : List RoleAssign := %s\ndef roleRefreshDur : List RoleAssign := %s\n",
 		leanAssigns(roleAssigns["parseRoleCertGenParams"]), leanAssigns(roleAssigns["parseRefreshRoleCertGenParams"]))
 	facts["roleAssigns"] = roleAssigns
+	// ---- second-factor step-up: how the session cookie is re-issued
+	if fd := kmd.funcs["updateAuthJWTWithNewAuthLevel"]; fd != nil {
+		flow["stepUpClaims"] = c03CallArg(kmd, fd, "Claims", 0)
+		var writes []string
+		ast.Inspect(fd.Body, func(n ast.Node) bool {
+			if as, ok := n.(*ast.AssignStmt); ok && as.Tok == token.ASSIGN {
+				for i, l := range as.Lhs {
+					if sel, ok := l.(*ast.SelectorExpr); ok && i < len(as.Rhs) {
+						writes = append(writes, kmd.str(sel)+" = "+kmd.str(as.Rhs[i]))
+					}
+				}
+			}
+			return true
+		})
+		flow["stepUpWrites"] = writes
+		flow["stepUpMints"] = append(c03CallArg(kmd, fd, "genNewSerializedAuthJWT", 0), c03CallArg(kmd, fd, "setNewAuthCookie", 0)...)
+		var rets []string
+		ast.Inspect(fd.Body, func(n ast.Node) bool {
+			if r, ok := n.(*ast.ReturnStmt); ok && len(r.Results) == 1 {
+				rets = append(rets, kmd.str(r.Results[0]))
+			}
+			return true
+		})
+		flow["stepUpReturns"] = rets
+	}
+	if fd := kmd.funcs["updateAuthCookieAuthlevel"]; fd != nil {
+		flow["stepUpCookieValue"] = c03Assigned(kmd, fd, "cookieVal")
+	}
 	facts["awsTemplateLifetime"] = awsLifetime
 	facts["flow"] = flow
 	fmt.Fprintf(&b, "\n/-- `NotAfter: now.Add(<this>)` in aws_identity_cert.makeCertificateTemplate, nanoseconds (-1: not found) -/\ndef awsTemplateLifetime : Int := %d\n", awsLifetime)
